@@ -4,8 +4,9 @@ from core import *
 HINV = ["Ledger", "OnePlace"]
 
 
-def hconsts(cbs=2, enq=3, inv=1, ops=(), cbshapes=(1, 2, 3, 4, 5, 6, 7), argshapes=(1, 2, 3, 4, 5, 6, 7), predshapes=(2, 3, 4, 5, 6)):
-    return {"MaxCbs": cbs, "MaxEnq": enq, "MaxInv": inv, "Ops": set(ops), "CbShapes": set(cbshapes), "ArgShapes": set(argshapes), "PredShapes": set(predshapes)}
+def hconsts(cbs=2, enq=3, inv=1, ops=(), cbshapes=(1, 2, 3, 4, 5, 6, 7), argshapes=(1, 2, 3, 4, 5, 6, 7), predshapes=(2, 3, 4, 5, 6), counts=()):
+    return {"MaxCbs": cbs, "MaxEnq": enq, "MaxInv": inv, "Ops": set(ops), "CbShapes": set(cbshapes), "ArgShapes": set(argshapes), "PredShapes": set(predshapes),
+            "Counts": set(counts)}
 
 
 def hworld(name, kind, threading=1, fill="0xA5", fraction=1.0, compiler="g++", std="c++11", opt="-O1", only_tags=None):
@@ -50,6 +51,32 @@ def c14(tier, seed):
                     "ones), insert before handles of the same and of other prototypes, process / processOne / processIf with five predicate shapes over "
                     "mixed queues with recycled slots; non-trivial = the script uses processIf or insert",
             "assumptions": ASSUME}
+
+
+def c16h(tier, seed):
+    """CounterRemover / ConditionalRemover over the heterogeneous classes (the part of C16 that names heterogeneous targets)."""
+    quick = tier == "quick"
+    rem = {"ac", "pc", "ic", "ak", "qk", "ik"}
+    direct = {"module": "HetGen", "tag": "selfremove-direct", "invariants": HINV + ["CtrLeft"],
+              "constants": hconsts(cbs=2, enq=0, inv=3 if quick else 4, ops=rem | {"al", "rl", "iv"}, cbshapes=(1, 2, 5) if quick else (1, 2, 3, 5, 6, 7),
+                                   argshapes=(1, 2, 6) if quick else (1, 2, 4, 6), predshapes=(), counts=(0, 2) if quick else (-1, 0, 1, 2, 3))}
+    queued = {"module": "HetGen", "tag": "selfremove-queued", "invariants": HINV + ["CtrLeft"],
+              "constants": hconsts(cbs=2, enq=3, inv=0, ops={"ac", "ic", "ak", "al", "nq", "pa", "po", "pi"}, cbshapes=(1, 2, 5), argshapes=(1, 2, 6), predshapes=(2, 6),
+                                   counts=(0, 2) if quick else (0, 1, 2, 3))}
+    worlds = [hworld("hk_list_single", 0, threading=0, only_tags=["selfremove-direct"]),
+              hworld("hk_disp_multi", 1, threading=1, only_tags=["selfremove-direct"], fraction=0.5, fill="0xFF"),
+              hworld("hk_queue_multi", 2, threading=1, only_tags=["selfremove-queued"]),
+              hworld("hk_queue_spin_direct", 2, threading=2, only_tags=["selfremove-direct"], fraction=0.25, fill="0x00")]
+    if not quick:
+        worlds.append(hworld("hk_queue_clang17", 2, threading=1, only_tags=["selfremove-queued"], fraction=0.5, compiler="clang++", std="c++17", opt="-O2"))
+    return {"interp": "harness/het_interp.cpp", "trace_module": "TraceHet", "models": [direct, queued], "worlds": worlds,
+            "rule": "every transition of the bounded HetGen reference model with CounterRemover listeners of several callback shapes (trigger counts incl. zero and "
+                    "negative; append / prepend / insert-before forms) and ConditionalRemover listeners (callbacks without arguments; the condition holds at its "
+                    "second evaluation and must be asked exactly once per trigger, before the listener) over HeterCallbackList / HeterEventDispatcher / "
+                    "HeterEventQueue, triggered by direct invocation / dispatch and through enqueue + process / processOne / processIf, next to plain listeners "
+                    "that are added and removed; non-trivial = the script uses processIf or insert",
+            "assumptions": ASSUME + ["ConditionalRemover's wrapper is callable with any argument list, so on a heterogeneous target it binds to the first prototype: only "
+                                     "callbacks without arguments can be registered through it (a library limitation, not judged)"]}
 
 
 PLANS = {"C14": c14}
